@@ -15,6 +15,7 @@
 //         D:j                            packet j reaches the receiver from its sender's address
 //         E:j:addr                       packet j reaches the receiver from address addr
 //         X:addr:hex                     these bytes reach the receiver from address addr
+//         L:maxBytes:j,j,..              packets j,.. are queued at the receiver's device, then ONE DoInput(maxBytes) call; the rest is dropped
 //         Z:...                          zlib graph entries (used by the model driver only)
 // A second kind of case exercises dataio/PacketizedProxyDataIO.cpp (packets framed over a byte stream) on its own:
 //   T,<wmtu>,<rmtu>|op;..   W:hex:a1:a2  Write(packet); the child stream accepts a1 bytes at its first Write(), a2 at the second
@@ -444,6 +445,65 @@ static void run_case(int k, const std::string & line, bool ztable)
             int guard = 0;
             while((rio.GetBuffersToRead().HasItems())&&(guard++ < 4)) (void) rgw()->DoInput(receiver);
             o << c << "[";
+            bool firstOut = true;
+            for (size_t j=before; j<receiver.got.size(); j++)
+            {
+               if ((receiver.got[j].bytes.empty())&&(!blob)) continue;
+               if (!firstOut) o << ","; firstOut = false;
+               o << receiver.got[j].addr << ":" << hex(receiver.got[j].bytes);
+            }
+            o << "]";
+            if (prcv)
+            {
+               o << "{";
+               bool f1 = true;
+               for (HashtableIterator<IPAddressAndPort, PacketTunnelIOGateway::ReceiveState> it(prcv->_receiveStates); it.HasData(); it++)
+               {
+                  const PacketTunnelIOGateway::ReceiveState & rs = it.GetValue();
+                  if (!f1) o << ","; f1 = false;
+                  const uint32 sz = rs._buf() ? rs._buf()->GetNumBytes() : 0;
+                  o << addr_of(it.GetKey()) << ":" << rs._messageID << ":" << rs._offset << ":" << sz << ":";
+                  if ((rs._buf())&&(rs._offset <= sz)) o << hex(rs._buf()->GetBuffer(), rs._offset);
+               }
+               o << "}";
+            }
+            o << ";";
+         }
+         else if ((c == "L")&&(a.size() >= 3))
+         {
+            // several packets waiting at the device, one DoInput(maxBytes) call: the read loop
+            Queue<ConstByteBufferRefAndIPAddressAndPort> q;
+            std::vector<std::string> js = split(a[2], ',');
+            std::vector<int> idx;
+            for (size_t z=0; z<js.size(); z++)
+            {
+               if (js[z].empty()) continue;
+               const size_t j = (size_t) U(js[z]);
+               if (j >= sent.size()) continue;
+               const uint32 own = senders[sent[j].sender]->addr;
+               const Bytes & pk = sent[j].bytes;
+               if ((ztable)&&(mini))
+               {
+                  Bytes tr(pk.begin(), pk.begin()+std::min((size_t)rmtu_eff, pk.size()));
+                  if ((tr.size() > 12)&&(first_word(tr) == rmagic)&&((word_at(tr, 8)>>24) != 0))
+                  {
+                     ZLibCodec codec(3);
+                     ByteBufferRef inf = codec.Inflate(&tr[12], (uint32)(tr.size()-12));
+                     if (inf()) zt << ";Z:i:" << hex(inf()->GetBuffer(), inf()->GetNumBytes()) << ":" << hex(&tr[12], tr.size()-12);
+                  }
+               }
+               (void) q.AddTail(ConstByteBufferRefAndIPAddressAndPort(GetByteBufferFromPool((uint32)pk.size(), pk.empty() ? NULL : &pk[0]), iap_of(own)));
+               idx.push_back((int)j);
+            }
+            const uint32 nq = q.GetNumItems();
+            rio.SetBuffersToRead(q);
+            const size_t before = receiver.got.size();
+            (void) rgw()->DoInput(receiver, U(a[1]));
+            const uint32 left = rio.GetBuffersToRead().GetNumItems();
+            rio.ClearBuffersToRead();
+            for (uint32 z=0; z<nq-left; z++) {feeders[senders[sent[idx[z]].sender]->addr].insert(sent[idx[z]].sender); deliveredSeq.push_back(idx[z]);}
+            if (left > 0) onlyD = false;   // what was left behind is lost: not a perfect transport any more
+            o << "L" << left << "[";
             bool firstOut = true;
             for (size_t j=before; j<receiver.got.size(); j++)
             {
